@@ -175,12 +175,18 @@ func (fr *Frame) evalC(e *CExpr, env *Env, hint *Sort) *GVal {
 		return tv(VNil)
 	case "id":
 		if g, ok := env.vars[e.Name]; ok {
+			fr.recordBinding(e.Name, env, true)
 			return g
 		}
 		if env.dbgHead != nil {
 			if g := fr.lookupDebugVar(e.Name, env.dbgHead); g != nil {
+				fr.recordBinding(e.Name, env, false)
 				return g
 			}
+		}
+		// the name does not occur (any more): a variable renamed in the code is found by its recorded role
+		if g := fr.bindFallback(e.Name, env); g != nil {
+			return g
 		}
 		// package-level constant
 		for _, pk := range []*ssa.Package{ex.p.pkg, ex.p.mainPkg} {
@@ -362,6 +368,12 @@ func (fr *Frame) lookupDebugVar(name string, head *ssa.BasicBlock) *GVal {
 				if d, ok := in.(*ssa.DebugRef); ok {
 					if v, ok := d.Object().(*types.Var); ok && v != nil && !v.IsField() {
 						fr.dbgAll[v.Name()] = append(fr.dbgAll[v.Name()], d.X)
+						if _, isConst := d.X.(*ssa.Const); isConst {
+							if fr.dbgConstAt == nil {
+								fr.dbgConstAt = map[ssa.Value][]*ssa.BasicBlock{}
+							}
+							fr.dbgConstAt[d.X] = append(fr.dbgConstAt[d.X], d.Block())
+						}
 					}
 				}
 			}
@@ -372,7 +384,13 @@ func (fr *Frame) lookupDebugVar(name string, head *ssa.BasicBlock) *GVal {
 	for _, v := range fr.dbgAll[name] {
 		switch x := v.(type) {
 		case *ssa.Const:
-			constCand = v
+			// a constant initialiser counts only where its declaration reaches this point
+			for _, cb := range fr.dbgConstAt[v] {
+				if cb != nil && cb.Dominates(head) {
+					constCand = v
+				}
+			}
+			_ = x
 			continue
 		case *ssa.Parameter:
 		case ssa.Instruction:
